@@ -133,6 +133,9 @@ def run(ctx):
                 continue
             gb, cond, panics_when = g
             srcs = internal_sources(F, f, cond)
+            if srcs and provably_positive(F, f, cond):
+                ctx.ok("R17.1", "%s|assert-provably-positive-%d" % (name, n_assert), "the asserted value depends on internal state but is bounded below by a positive constant on every such origin (sign analysis): the assert cannot fire", f.where(b), fmt(cond)[:140])
+                continue
             import hashlib
             key = "%s|assert-%s" % (name, hashlib.sha1(repr(strip_site(cond)).encode()).hexdigest()[:8])
             ctx.check(not srcs, "R17.1", key,
@@ -230,3 +233,87 @@ def short_cond(e):
     import re
     s = re.sub(r"\s+", "", s)
     return s[:70]
+
+
+def lower_bound(F, fn, e, depth=0):
+    """a constant lower bound of an integer expression, or None (tiny sign/interval analysis)"""
+    from core import closure_captures
+    if not isinstance(e, tuple) or not e or depth > 12:
+        return None
+    k = e[0]
+    if k == "const" and isinstance(e[1], int):
+        return e[1]
+    if k == "cast":
+        return lower_bound(F, fn, e[1], depth + 1)
+    if k == "binop" and e[1] == "Add":
+        a, b = lower_bound(F, fn, e[2], depth + 1), lower_bound(F, fn, e[3], depth + 1)
+        return a + b if a is not None and b is not None else None
+    if k == "binop" and e[1] == "Sub":
+        a, b = lower_bound(F, fn, e[2], depth + 1), e[3]
+        if a is not None and b[0] == "const" and isinstance(b[1], int):
+            return a - b[1]
+        ub = upper_const(F, fn, b)
+        return a - ub if a is not None and ub is not None else None
+    if k == "call" and (e[1].endswith("cmp::Ord::max") or e[1].endswith("cmp::max")) and len(e[2]) == 2:
+        bs = [lower_bound(F, fn, x, depth + 1) for x in e[2]]
+        ks = [x for x in bs if x is not None]
+        return max(ks) if ks else None
+    if k == "call" and e[1].endswith("Option::<T>::unwrap_or") and len(e[2]) == 2:
+        d = lower_bound(F, fn, e[2][1], depth + 1)
+        src = e[2][0]
+        # a weight read from the weight map is >= 1 (weights are asserted positive at the API and only recorded weights are stored)
+        if src[0] == "call" and src[1] in F.fns and F.fns[src[1]].rec.get("ret", "") == "std::option::Option<i64>" and "KW" in def_effects(F, src[1])["acquire"]:
+            return min(1, d) if d is not None else None
+        return None
+    if k == "call" and e[1] in F.fns and not e[2]:
+        g = F.fns[e[1]]           # argument-less local function (e.g. a size computed from constants)
+        return lower_bound(F, g, g.origin_local(0), depth + 1)
+    if k == "field" and e[1] == ("env",):
+        cc = closure_captures(F, fn.name)
+        if cc and e[2] in cc[1]:
+            return lower_bound(F, cc[0], cc[1][e[2]], depth + 1)
+    if k == "phi":
+        bs = [lower_bound(F, fn, x, depth + 1) for x in e[1]]
+        return min(bs) if all(x is not None for x in bs) else None
+    return None
+
+
+def upper_const(F, fn, e):
+    """value of an expression that is a compile-time constant (sums of constants, casts)"""
+    if e[0] == "const" and isinstance(e[1], int):
+        return e[1]
+    if e[0] == "cast":
+        return upper_const(F, fn, e[1])
+    if e[0] == "binop" and e[1] == "Add":
+        a, b = upper_const(F, fn, e[2]), upper_const(F, fn, e[3])
+        return a + b if a is not None and b is not None else None
+    if e[0] == "call" and e[1] in F.fns and not e[2]:
+        g = F.fns[e[1]]
+        return upper_const(F, g, g.origin_local(0))
+    return None
+
+
+def provably_positive(F, fn, cond):
+    """cond is `0 < V`; every origin of V is either free of internal state (argument / user-callback derived) or an
+    Option::or_else fallback closure returning Some(E) with a positive lower bound for E"""
+    if not (cond[0] == "binop" and cond[1] == "Lt" and cond[2][0] == "const" and cond[2][1] == 0):
+        return False
+    members = cond[3][1] if cond[3][0] == "phi" else (cond[3],)
+    for m in members:
+        if not internal_sources(F, fn, m):
+            continue
+        x = m
+        if x[0] == "field" and x[1][0] == "variant" and x[1][2] == "Some":
+            x = x[1][1]
+        if not (x[0] == "call" and x[1].endswith("Option::<T>::or_else") and len(x[2]) == 2 and x[2][1][0] == "agg" and x[2][1][1] in F.fns):
+            return False
+        if internal_sources(F, fn, x[2][0]):
+            return False
+        c = F.fns[x[2][1][1]]
+        r = c.origin_local(0)
+        if not (r[0] == "agg" and r[2] == "Some"):
+            return False
+        lb = lower_bound(F, c, r[3][0][1])
+        if lb is None or lb < 1:
+            return False
+    return True
